@@ -104,13 +104,83 @@ def r3_quote_all(chk: Check) -> None:
     qa = P.func("specs/openapi/_hypothesis.py:quote_all")
     t = unparse(qa.node, 100000)
     chk.expect("'%2E'" in t and "'%2E%2E'" in t and "value == '.'" in t and "value == '..'" in t, "C06.R3", qa, "'.' and '..' encoded as %2E / %2E%2E", "dot segments are sent verbatim and collapse the path", qa.loc())
-    chk.expect("quote_plus(value)" in t, "C06.R3", qa, "other strings through quote_plus", "reserved characters are not encoded", qa.loc())
+    # every string value is replaced by an encoded one on every path through the loop body
+    g = cfg_of(qa)
+    loop = next((n for n in walk_body(qa.node) if isinstance(n, ast.For) and "parameters" in unparse(n.iter)), None)
+    if loop is None:
+        chk.undecided("C06.R3", qa, "every string value is stored encoded", "loop over the parameters not found", qa.loc())
+    else:
+        head = [n.id for n in g.live() if n.kind == "for" and n.ast is loop]
+        str_tests = [(tid, e) for tid, e in guard_tests(g, lambda e: "isinstance(value, str)" in unparse(e))]
+        stores = [n.id for n in g.live() if n.kind == "stmt" and isinstance(n.ast, ast.Assign) and isinstance(n.ast.targets[0], ast.Subscript) and dotted(n.ast.targets[0].value) == "parameters"]
+        if not str_tests:
+            chk.undecided("C06.R3", qa, "every string value is stored encoded", "isinstance(value, str) test not found", qa.loc())
+        else:
+            tid = str_tests[0][0]
+            starts = [m for m, lbl in g.nodes[tid].succ if lbl == "true"]
+            w = g.path(starts, head, avoid=stores, edge_ok=lambda a, b, lbl: not lbl.startswith("exc:"))
+            if w is None:
+                chk.ok("C06.R3", qa, "every string value is stored encoded", "", qa.loc(loop))
+            else:
+                chk.violation("C06.R3", qa, "every string value is stored encoded",
+                              "some string values skip the encoding step (a guard decides they are 'already encoded'): a generated value such as `100%25` or `a%2Fb` is put into the URL verbatim and the server decodes something else",
+                              qa.loc(loop), g.describe_path(w, qa.module.relpath))
+    encs = [c for c in body_calls(qa) if dotted(c.func) in ("quote", "quote_plus", "urllib.parse.quote", "urllib.parse.quote_plus")]
+    if not encs:
+        chk.violation("C06.R3", qa, "strings percent-encoded for a URL path (quote(value, safe=''))", "no percent-encoding call left", qa.loc())
+    for c in encs:
+        d = dotted(c.func) or ""
+        if d.endswith("quote_plus"):
+            chk.violation("C06.R3", qa, "strings percent-encoded for a URL path (quote(value, safe=''))", "quote_plus turns a space into `+`, which is a literal plus sign in a URL path: the server receives `a+b` for the generated value `a b`", qa.loc(c))
+        else:
+            safe = kwarg(c, "safe") if len(c.args) < 2 else c.args[1]
+            if safe is None:
+                chk.violation("C06.R3", qa, "strings percent-encoded for a URL path (quote(value, safe=''))", "quote() keeps `/` unescaped by default: a generated value containing `/` adds a path segment", qa.loc(c))
+            else:
+                chk.decide(const_str(safe) == "", "C06.R3", qa, "strings percent-encoded for a URL path (quote(value, safe=''))", f"characters {unparse(safe)} are left unescaped in path values", qa.loc(c))
     rets = simple_return_expr(qa)
     chk.decide(any(isinstance(r, ast.Name) and r.id == "parameters" for r in rets), "C06.R3", qa, "quote_all returns the mapping", "quoted values are discarded", qa.loc())
     pu = P.func("transport/prepare.py:prepare_url")
     t = unparse(pu.node, 100000)
     chk.expect("prepare_path(case.path, case.path_parameters)" in t, "C06.R3", pu, "URL path = template formatted with the case's path parameters", "path template is not filled from the case", pu.loc())
     chk.expect("unquote(urljoin(base_url, quote(path)))" in t, "C06.R3", pu, "join does not double-encode (quote then unquote around urljoin)", "percent-encoded values are encoded twice / dot segments resolved", pu.loc())
+
+
+def r3b_template_ownership(chk: Check) -> None:
+    chk.rule("C06.R3b", "OWNERSHIP: the coverage template's containers are copied before the in-place serializers / quote_all run on them (otherwise every following case is serialized again)", floor=2)
+    P = chk.project
+    fn = P.func("generation/hypothesis/builder.py:Template._serialize")
+    g = cfg_of(fn)
+    loop = next((n for n in walk_body(fn.node) if isinstance(n, ast.For) and "kwargs.items()" in unparse(n.iter)), None)
+    if loop is None or not isinstance(loop.target, ast.Tuple):
+        raise Undecided("loop over kwargs.items() not found in Template._serialize")
+    var = loop.target.elts[1].id  # type: ignore[attr-defined]
+    mutators = [c for s in loop.body for c in calls(s) if (isinstance(c.func, ast.Name) and c.func.id in ("serializer", "quote_all")) and any(isinstance(a, ast.Name) and a.id == var for a in c.args)]
+    copies = [n.id for n in g.live() if n.kind == "stmt" and isinstance(n.ast, ast.Assign) and any(isinstance(t_, ast.Name) and t_.id == var for t_ in n.ast.targets)
+              and (unparse(n.ast.value) in (f"{var}.copy()", f"dict({var})", f"deepclone({var})", f"copy.deepcopy({var})", f"deepcopy({var})") or (isinstance(n.ast.value, ast.Dict) and unparse(n.ast.value) == "{**" + var + "}"))]
+    head = [n.id for n in g.live() if n.kind == "for" and n.ast is loop]
+    starts = [m for h in head for m, lbl in g.nodes[h].succ if lbl == "iter"]
+    # a non-dict value (None / scalar) has nothing shared to mutate: the false edge of the `isinstance(value, dict)`
+    # test that guards the copy is not a way around it
+    cut = []
+    for tid, e in guard_tests(g, lambda e: unparse(e) == f"isinstance({var}, dict)"):
+        if any(cp in g.reachable_from([m for m, lbl in g.nodes[tid].succ if lbl == "true"], avoid=head) for cp in copies):
+            cut += [(tid, m, lbl) for m, lbl in g.nodes[tid].succ if lbl == "false"]
+    for c in mutators:
+        mn = g.stmt_nodes_containing(c)
+        w = g.path(starts, mn, avoid=copies, avoid_edges=cut, edge_ok=lambda a, b, lbl: not lbl.startswith("exc:"))
+        construct = f"{unparse(c, 40)} works on a copy of the template's container"
+        if w is None:
+            chk.ok("C06.R3b", fn, construct, "", fn.loc(c))
+        else:
+            chk.violation("C06.R3b", fn, construct,
+                          "the serializer / quoting mutates the dict stored in the template: the next coverage case serializes the already serialized value again (`a b/c` -> `a%20b%2Fc` -> `a%2520b%252Fc`, JSON encoded twice)",
+                          fn.loc(c))
+    if not mutators:
+        chk.undecided("C06.R3b", fn, "serializer / quote_all calls", "no in-place transformation found", fn.loc())
+    # the in-place nature of the serializers (what makes the copy load-bearing)
+    conv = P.func("specs/openapi/serialization.py:conversion._wrapper._map")
+    chk.note("parameter serializers mutate their argument in place" if "return item" in unparse(conv.node, 2000) else "parameter serializers build new mappings")
 
 
 def r4_header_writers(chk: Check) -> None:
@@ -173,4 +243,4 @@ def r5_cookie_pair(chk: Check) -> None:
 
 
 def rules(tier: str) -> list:  # type: ignore[type-arg]
-    return [r1_registries, r2_content_type, r3_quote_all, r4_header_writers, r5_cookie_pair]
+    return [r1_registries, r2_content_type, r3_quote_all, r3b_template_ownership, r4_header_writers, r5_cookie_pair]
